@@ -8,12 +8,15 @@ void ll2c_bad_indirect_call(void);
 void ll2c_fail(const char* msg);
 int32_t ll2c_eh_typeid_for(char*);
 #ifdef __CPROVER__
+uint64_t nondet_uint64(void);
+#define LL2C_UNDEF() nondet_uint64()
 #define LL2C_ASSUME(x) __CPROVER_assume(x)
 /* low tag bit of a pointer value; assumes every object starts at an even address */
 #define LL2C_PTR_LOWBIT(p) ((uint64_t)(__CPROVER_POINTER_OFFSET((char*)(p)) & 1))
 #define LL2C_PTR_CLEARLOW(p) ((char*)(p) - (__CPROVER_POINTER_OFFSET((char*)(p)) & 1))
 #define LL2C_PTR_SETLOW(p) ((char*)(p) + (1 - (__CPROVER_POINTER_OFFSET((char*)(p)) & 1)))
 #else
+#define LL2C_UNDEF() 0
 #define LL2C_PTR_LOWBIT(p) ((uint64_t)((uintptr_t)(p) & 1))
 #define LL2C_PTR_CLEARLOW(p) ((char*)((uintptr_t)(p) & ~(uintptr_t)1))
 #define LL2C_PTR_SETLOW(p) ((char*)((uintptr_t)(p) | (uintptr_t)1))
